@@ -16,11 +16,13 @@ CONSTANTS BaseMod
 
 Places == {"header", "between-blocks", "after-expressions-header", "inside-expressions", "trailing", "end-of-file",
            "blank-inside-expressions", "indent", "crlf", "continuation", "trailing-spaces", "tabs", "no-final-newline",
-           "unit-annotation", "two-comments", "after-header-and-inside", "header-and-trailing"}
+           "unit-annotation", "two-comments", "after-header-and-inside", "header-and-trailing",
+           \* a comment (a blank line) after EVERY line of the text: a block is cut into as many segments as it has lines
+           "comment-every-line", "blank-every-line", "comment-every-assignment"}
 \* index into the harness' table of comment strings (plain words, unit names, "1/0", "9**9**9", "x = 3", quotes, ...)
 NStrings == 36
 NeedsString(p) == p \in {"header", "between-blocks", "after-expressions-header", "inside-expressions", "trailing", "end-of-file", "two-comments",
-                          "after-header-and-inside", "header-and-trailing"}
+                          "after-header-and-inside", "header-and-trailing", "comment-every-line", "comment-every-assignment"}
 
 VARIABLES deco
 dvars == <<vars, deco>>
@@ -39,12 +41,20 @@ Decorated(ls, d) ==
     [] d.place \in {"between-blocks", "after-expressions-header", "inside-expressions", "two-comments", "blank-inside-expressions"} ->
          LET at == IF Len(ls) > 2 THEN 1 + (d.str % (Len(ls) - 1)) ELSE 1
          IN SubSeq(ls, 1, at) \o <<Line(IF d.place = "blank-inside-expressions" THEN "blank" ELSE "comment", 0, d.str)>> \o SubSeq(ls, at + 1, Len(ls))
+    [] d.place \in {"comment-every-line", "blank-every-line"} ->
+         LET RECURSIVE Inter(_)
+             Inter(sq) == IF sq = <<>> THEN <<>> ELSE <<Head(sq), Line(IF d.place = "blank-every-line" THEN "blank" ELSE "comment", 0, d.str)>> \o Inter(Tail(sq))
+         IN Inter(ls)
+    [] d.place = "comment-every-assignment" ->
+         LET RECURSIVE InterA(_)
+             InterA(sq) == IF sq = <<>> THEN <<>> ELSE (IF Head(sq).k = "entry" THEN <<Head(sq), Line("comment", 0, d.str)>> ELSE <<Head(sq)>>) \o InterA(Tail(sq))
+         IN InterA(ls)
     [] OTHER -> ls
 Strip(ls) == SelectSeq(ls, LAMBDA l : l.k \in {"header", "entry"})
 
 DInit == Init /\ deco = None
 DChoose == Choose /\ UNCHANGED deco
-LayoutIdx == CASE layout = "single" -> 0 [] layout = "split" -> 1 [] layout = "noparams" -> 2 [] OTHER -> 3
+LayoutIdx == CASE layout = "single" -> 0 [] layout = "split" -> 1 [] layout = "noparams" -> 2 [] layout = "headed" -> 19 [] OTHER -> 3    \* headed: the same base structures as split (offsets 23 - 5 = 19 - 1)
 Decorate == /\ pc = "done" /\ Hash % BaseMod = LayoutIdx
             /\ \E p \in Places : \E s \in (IF NeedsString(p) THEN 1..NStrings ELSE {0}) : deco' = [place |-> p, str |-> s]
             /\ pc' = "decorated" /\ UNCHANGED <<deps, sched, i, layout, mi, lay>>
